@@ -338,6 +338,17 @@ MUTATORS = {"add_node", "add_edge", "add_nodes_from", "add_edges_from", "remove_
 STR_METHODS = {"split", "rsplit", "join", "startswith", "endswith", "partition", "rpartition", "count", "find", "rfind", "index", "replace", "strip", "lstrip", "rstrip", "lower", "upper", "removeprefix", "removesuffix", "format", "isidentifier", "splitlines", "title", "isdigit"}
 
 
+def dataclass_eq(ci: ClassInfo) -> bool:
+    """@dataclass without eq=False: instances compare field by field."""
+    for d in ci.node.decorator_list:
+        name = d.func if isinstance(d, ast.Call) else d
+        if (isinstance(name, ast.Name) and name.id == "dataclass") or (isinstance(name, ast.Attribute) and name.attr == "dataclass"):
+            if isinstance(d, ast.Call) and any(k.arg == "eq" and isinstance(k.value, ast.Constant) and k.value.value is False for k in d.keywords):
+                return False
+            return True
+    return False
+
+
 def is_native(v: Any) -> bool:
     if isinstance(v, (str, int, float, bool, type(None), bytes)):
         return True
@@ -532,8 +543,13 @@ class InterpBase:
         if is_native(a) and is_native(b):
             return a == b
         if isinstance(a, (Inst, ANode, ExtObj, FuncVal, ClassVal)) or isinstance(b, (Inst, ANode, ExtObj, FuncVal, ClassVal)):
-            if isinstance(a, Inst) and self.repo.lookup_method(a.ci, "__eq__") is not None:
-                return self.truth(self.call_function(self.repo.lookup_method(a.ci, "__eq__"), [a, b], {}))
+            if isinstance(a, Inst) and isinstance(b, Inst) and a.ci is b.ci and self.repo.lookup_method(a.ci, "__eq__") is None and dataclass_eq(a.ci):
+                return all(self.equal(a.fields.get(k), b.fields.get(k)) for k in a.fields)
+            for x, y in ((a, b), (b, a)):
+                if isinstance(x, Inst) and self.repo.lookup_method(x.ci, "__eq__") is not None:
+                    r = self.call_function(self.repo.lookup_method(x.ci, "__eq__"), [x, y], {})
+                    if r is not NotImplemented:
+                        return self.truth(r)
             if isinstance(a, ClassVal) and isinstance(b, ClassVal):
                 return a.ci is b.ci
             return False
